@@ -186,7 +186,12 @@ func GenFileScript(r *Rng, hist map[string]int) []string {
 		if staging {
 			out = append(out, fmt.Sprintf("F stage %d %s %s %d", typ, ktok, vtok, batch))
 			hist["op_stage"]++
-			if r.Chance(1, 3) || i == nrec-1 {
+			if i < nrec-1 && r.Chance(1, 10) {
+				// the back-end refuses the write of the staged records; they are dropped and the history goes on
+				out = append(out, "F flushfail")
+				hist["op_flush_refused_by_backend"]++
+				staging = false
+			} else if r.Chance(1, 3) || i == nrec-1 {
 				out = append(out, "F flush")
 				staging = false
 				if r.Chance(9, 10) {
